@@ -837,3 +837,79 @@ mod placeholder_parse_fmt_string_spec {
         );
     }
 }
+
+/// Read-only accessors used by the external verification harness. Compiled only with
+/// the `jeltef_derive_more_verif` cargo feature; never part of a normal build.
+#[cfg(feature = "jeltef_derive_more_verif")]
+pub(crate) mod verif_hooks {
+    use quote::ToTokens as _;
+    use syn::parse::Parser as _;
+
+    use super::{FieldsExt as _, FmtAttribute, Parameter, Placeholder};
+
+    /// [`Placeholder::parse_fmt_string`] as plain data: `Ok(index)` / `Err(name)`, modifiers
+    /// flag and trait name.
+    pub(crate) fn placeholders(s: &str) -> Vec<(Result<usize, String>, bool, &'static str)> {
+        Placeholder::parse_fmt_string(s)
+            .into_iter()
+            .map(|p| {
+                (
+                    match p.arg {
+                        Parameter::Positional(i) => Ok(i),
+                        Parameter::Named(n) => Err(n),
+                    },
+                    p.has_modifiers,
+                    p.trait_name,
+                )
+            })
+            .collect()
+    }
+
+    /// Parses `tokens` as a [`FmtAttribute`] and reports, as one line of text, its arguments,
+    /// re-emitted tokens and the decisions taken from it for the provided `fields`.
+    pub(crate) fn fmt_attr(
+        tokens: proc_macro2::TokenStream,
+        fields: &syn::Fields,
+    ) -> syn::Result<String> {
+        let attr = <FmtAttribute as syn::parse::Parse>::parse.parse2(tokens)?;
+        let args = attr
+            .args
+            .iter()
+            .map(|a| {
+                format!(
+                    "[{}|{}|{}]",
+                    a.alias().map(ToString::to_string).unwrap_or_default(),
+                    a.expr.to_token_stream(),
+                    a.expr.ident().map(ToString::to_string).unwrap_or_default(),
+                )
+            })
+            .collect::<Vec<_>>()
+            .join("");
+        let show = |c: Option<(crate::parsing::Expr, syn::Ident)>| {
+            c.map(|(e, t)| format!("{t}({})", e.to_token_stream()))
+                .unwrap_or_else(|| "-".into())
+        };
+        let bounded = attr
+            .bounded_types(fields)
+            .map(|(ty, tr)| format!("[{}:{tr}]", ty.to_token_stream()))
+            .collect::<Vec<_>>()
+            .join("");
+        let deref = attr
+            .additional_deref_args(fields)
+            .map(|t| format!("[{t}]"))
+            .collect::<Vec<_>>()
+            .join("");
+        let idents = fields
+            .fmt_args_idents()
+            .map(|i| i.to_string())
+            .collect::<Vec<_>>()
+            .join(",");
+        Ok(format!(
+            "n={} args={args} emit=<{}> tc={} tcf={} bounded={bounded} deref={deref} idents={idents}",
+            attr.args.len(),
+            attr.to_token_stream(),
+            show(attr.transparent_call()),
+            show(attr.transparent_call_on_fields(fields)),
+        ))
+    }
+}
